@@ -38,10 +38,19 @@ Params(kind, method) ==
    CASE kind = "matching_cost" -> <<<<"window_size", I(5)>>, <<"subpix", I(1)>>, <<"band", Null>>, <<"step", I(1)>>>>
      [] kind = "aggregation" -> <<<<"cbca_intensity", F(30000)>>, <<"cbca_distance", I(5)>>>>
      [] kind = "disparity" -> <<<<"invalid_disparity", I(-9999)>>>>
-     [] kind = "filter" /\ method \in {"median", "median_for_intervals"} -> <<<<"filter_size", I(3)>>>>
+     [] kind = "filter" /\ method = "median" -> <<<<"filter_size", I(3)>>>>
+     \* regularisation parameters (filtering.rst / cost_volume_confidence.rst). No default is claimed where the guide and the code
+     \* disagree (vertical_depth 2 / 0, quantile_regularization 0.9 / 1.0, normalization false / true)
+     [] kind = "filter" /\ method = "median_for_intervals" ->
+          <<<<"filter_size", I(3)>>, <<"interval_indicator", S("")>>, <<"regularization", B(FALSE)>>, <<"ambiguity_indicator", S("")>>,
+            <<"ambiguity_threshold", F(600)>>, <<"ambiguity_kernel_size", I(5)>>, <<"vertical_depth", Absent>>, <<"quantile_regularization", Absent>>>>
      [] kind = "filter" /\ method = "bilateral" -> <<<<"sigma_color", F(2000)>>, <<"sigma_space", F(6000)>>>>
      [] kind = "validation" -> <<<<"cross_checking_threshold", F(1000)>>, <<"interpolated_disparity", Absent>>>>
-     [] kind = "cost_volume_confidence" /\ method \in {"ambiguity", "risk"} -> <<<<"eta_max", F(700)>>, <<"eta_step", F(10)>>>>
+     [] kind = "cost_volume_confidence" /\ method = "risk" -> <<<<"eta_max", F(700)>>, <<"eta_step", F(10)>>>>
+     [] kind = "cost_volume_confidence" /\ method = "ambiguity" -> <<<<"eta_max", F(700)>>, <<"eta_step", F(10)>>, <<"normalization", Absent>>>>
+     [] kind = "cost_volume_confidence" /\ method = "interval_bounds" ->
+          <<<<"possibility_threshold", F(900)>>, <<"regularization", B(FALSE)>>, <<"ambiguity_indicator", S("")>>, <<"ambiguity_threshold", F(600)>>,
+            <<"ambiguity_kernel_size", I(5)>>, <<"vertical_depth", Absent>>, <<"quantile_regularization", Absent>>>>
      [] kind = "multiscale" -> <<<<"num_scales", I(2)>>, <<"scale_factor", I(2)>>, <<"marge", I(1)>>>>
      [] OTHER -> <<>>
 ParamNames(kind, method) == {Params(kind, method)[i][1] : i \in 1..Len(Params(kind, method))}
@@ -63,6 +72,7 @@ Dom(kind, method, name, v, bands) ==
           IF v.t = "bool" THEN "unspecified" ELSE IF v.t = "int" /\ v.n = 1 THEN "yes" ELSE "no"
      [] name = "band" ->
           IF v.t = "null" THEN (IF bands[1] = {} /\ bands[2] = {} THEN "yes" ELSE "no")
+          ELSE IF v.t = "str" /\ v.s = "" THEN "unspecified"        \* the empty string is no band name: treated like null by the code
           ELSE IF v.t = "str" THEN (IF v.s \in bands[1] /\ v.s \in bands[2] THEN "yes" ELSE "no")
           ELSE "no"
      [] name \in {"cbca_intensity", "sigma_color", "sigma_space"} ->
@@ -87,6 +97,23 @@ Dom(kind, method, name, v, bands) ==
           IF v.t = "bool" THEN "unspecified" ELSE IF v.t = "int" /\ v.n >= 2 THEN "yes" ELSE "no"
      [] name = "marge" ->
           IF v.t = "bool" THEN "unspecified" ELSE IF v.t = "int" /\ v.n >= 0 THEN "yes" ELSE "no"
+     [] name \in {"possibility_threshold", "quantile_regularization"} ->           \* float in [0, 1]
+          IF v.t = "float" THEN (IF v.n >= 0 /\ v.n <= 1000 THEN "yes" ELSE "no")
+          ELSE IF v.t = "int" THEN (IF v.n \in {0, 1} THEN "unspecified" ELSE "no")
+          ELSE "no"
+     [] name = "ambiguity_threshold" ->             \* the guide says ]0, 1[, the schema [0, 1]: the two ends are left open
+          IF v.t = "float" THEN (IF v.n > 0 /\ v.n < 1000 THEN "yes" ELSE IF v.n \in {0, 1000} THEN "unspecified" ELSE "no")
+          ELSE IF v.t = "int" THEN (IF v.n \in {0, 1} THEN "unspecified" ELSE "no")
+          ELSE "no"
+     [] name \in {"regularization", "normalization"} -> IF v.t = "bool" THEN "yes" ELSE "no"
+     [] name \in {"ambiguity_indicator", "interval_indicator"} ->
+          IF IsSpecialFloatString(v) THEN "unspecified" ELSE IF v.t = "str" THEN "yes" ELSE "no"
+     [] name = "ambiguity_kernel_size" ->           \* the guide says >= 0, the schema odd and > 0: even sizes are left open
+          IF v.t = "bool" THEN "unspecified"
+          ELSE IF v.t = "int" THEN (IF v.n > 0 /\ v.n % 2 = 1 THEN "yes" ELSE IF v.n >= 0 THEN "unspecified" ELSE "no")
+          ELSE "no"
+     [] name = "vertical_depth" ->
+          IF v.t = "bool" THEN "unspecified" ELSE IF v.t = "int" THEN (IF v.n >= 0 THEN "yes" ELSE "no") ELSE "no"
      [] OTHER -> "unspecified"
 
 \* verdict for a step whose configuration is the sequence cfg of <<name, value>> pairs (method key excluded)
